@@ -28,7 +28,9 @@ ASSUMPTIONS = [
 RULE = ("programs = pairs of executions of the same seeded scheduler on the same event script: (a) in-process twin whose global "
         "numpy/python generators are reseeded and advanced between every two scheduler calls and which is interleaved with an "
         "independent instance of the same scheduler class; (b) fresh-process twins with PYTHONHASHSEED 1 and 2; (c) for "
-        "bayesopt/hypertune searchers two fresh processes. A pair disagrees iff the traces (suggested configurations bit-exact, "
+        "bayesopt/hypertune searchers two fresh processes (with restarted surrogate fits also under different hash seeds); (d) twins "
+        "created from ONE list object of allowed / of initial configurations, schedulers given a searcher object without a seed of "
+        "its own, global generators re-seeded before the second twin is created. A pair disagrees iff the traces (suggested configurations bit-exact, "
         "decisions) differ. distinct by sha256 of the spec; non-trivial iff the trace contains >= 10 suggestions")
 MODEL_FREE = ["fifo-random", "fifo-grid", "fifo-rea", "hb-stopping", "hb-promotion", "hb-pasha", "hb-cost_promotion",
               "hb-rush_stopping", "hb-rush_promotion", "sync-hb", "dehb", "pbt", "median", "hb-dyhpo"]
